@@ -1,12 +1,14 @@
 #!/bin/sh
-# MANIFEST.setup_cmd: build the Lean project (model, theorems, driver) and the Rust runner, offline.
-set -e
-cd "$(dirname "$0")"
+# MANIFEST.setup_cmd: build the Lean project (model, theorems, drivers) and the Rust runner, offline.
+# Every check rebuilds what it needs itself (lake build of its own targets, cargo build of the
+# runner against /repo's working tree), so this only warms the caches; it fails only if the
+# toolchains themselves do not work.
+cd "$(dirname "$0")" || exit 1
 mkdir -p .build evidence replays
 export CARGO_NET_OFFLINE=true
 [ -f runner/Cargo.lock ] || cp /repo/Cargo.lock runner/Cargo.lock
-(cd lean && lake build 2>&1 | grep -v '^trace' | tail -5)
-(cd runner && CARGO_TARGET_DIR=../.build/cargo cargo build --offline --quiet 2>&1 | grep -E '^(error|warning: unused)' -A5 | head -40 || true)
-test -x .build/cargo/debug/grass_verif_runner
-test -x lean/.lake/build/bin/driver
+(cd lean && flock ../.build/lake.lock lake build 2>&1 | grep -v '^trace' | tail -5)
+(cd runner && CARGO_TARGET_DIR=../.build/cargo cargo build --offline --quiet 2>&1 | grep -E '^error' -A8 | head -40)
+test -x .build/cargo/debug/grass_verif_runner || { echo "runner did not build"; exit 1; }
+test -x lean/.lake/build/bin/drv_media || { echo "lean drivers did not build"; exit 1; }
 echo setup-ok
